@@ -77,6 +77,21 @@ Section C05.
     intros l1 p t l2 E. rewrite E in D. eapply ctf_clear_followed; eauto.
   Qed.
 
+  (** destroy_exactly_once (3), timing: the events appended by one call
+      release the managed memory [m] iff after the call nothing owns it any
+      more, i.e. exactly in the call that removes its last owner *)
+  Theorem C05_destroyed_with_last_owner s l s' out m :
+    reachable s -> lmstep s l = Done s' out -> managed s m ->
+    exists evs, log s' = evs ++ log s /\
+      (In (MA (EvFree m)) evs <-> ~ (lookup m (datas s') <> None \/ managed s' m \/ uowned s' m)).
+  Proof.
+    intros R E M. destruct (reach_inv ks ex s R) as (I & _).
+    assert (R' : reachable s') by (eapply reach_step; eauto). destruct (reach_inv ks ex s' R') as (I' & _).
+    destruct (step_releases (fst l) s (snd l) s' out I E) as (evs & L & T). exists evs. split; auto.
+    assert (Lm : is_live (al s) m = true) by (apply (live_iff_owned s m I); auto).
+    rewrite <- In_freed, (T m Lm), <- (live_iff_owned s' m I'). destruct (is_live (al s') m); split; congruence.
+  Qed.
+
   (** co-owners' get agree and point at live memory *)
   Theorem C05_get_agree s i j oi oj d :
     reachable s -> nth_error (objs s) i = Some oi -> nth_error (objs s) j = Some oj ->
@@ -154,6 +169,7 @@ Print Assumptions C05_live_iff_owned.
 Print Assumptions C05_memory_iff_owner.
 Print Assumptions C05_bookkeeping_iff_referenced.
 Print Assumptions C05_released_exactly_once.
+Print Assumptions C05_destroyed_with_last_owner.
 Print Assumptions C05_get_agree.
 Print Assumptions C05_lock_iff.
 Print Assumptions C05_unique_iff.
